@@ -15,6 +15,12 @@ pub struct C15 {
     /// evaluate all pairs when n <= this, otherwise `sample_pairs` generated pairs
     pub all_pairs_upto: usize,
     pub sample_pairs: usize,
+    /// further reveal shapes (own tape layout, so the other stages' replay tapes keep their
+    /// meaning): unions whose FIRST member is an empty version set of another package, the
+    /// second requirement of a question phrased as such a union, and a chain whose head has
+    /// a preferred candidate that selects a sibling before the question is revealed and is
+    /// then backtracked over
+    pub extended: bool,
 }
 
 pub struct Plan {
@@ -37,6 +43,10 @@ pub struct Plan {
     /// a preferred, hinted blocker candidate whose constrains admit only one group of p:
     /// the other candidates are already decided false when the chain reveals them
     pub blocker: Option<usize>,
+    /// union index [empty set of x | {j}] per candidate, when questions are phrased that way
+    pub single_u: Option<Vec<usize>>,
+    pub empty_first: bool,
+    pub decided_sibling: bool,
 }
 
 fn interesting_n(t: &mut Tape, max_n: usize) -> usize {
@@ -105,6 +115,7 @@ impl C15 {
             u.vsets.len() - 1
         };
         let mut eager_groups: Vec<usize> = vec![];
+        let mut empty_first_unions: Vec<usize> = vec![];
         let order = t.permutation(n_groups);
         for &g in &order {
             let members: Vec<usize> = (0..n).filter(|&i| group_of[i] == g).collect();
@@ -123,6 +134,9 @@ impl C15 {
                     let vs = u.vsets.len() - 1;
                     // union member order: helper first or group first
                     let members = if t.chance(1, 2) { vec![ok_vs, vs] } else { vec![vs, ok_vs] };
+                    if self.extended && t.chance(1, 2) {
+                        empty_first_unions.push(u.unions.len());
+                    }
                     u.unions.push(Union { id: 0, members });
                     reveal_reqs.push(Req::Union(u.unions.len() - 1));
                 }
@@ -170,6 +184,32 @@ impl C15 {
             });
             reveal_reqs.push(Req::Single(u.vsets.len() - 1));
         }
+        let mut x_empty = None;
+        if self.extended {
+            // package x: one candidate, and a version set of it that matches nothing
+            u.packages.push(Package {
+                name_id: 0,
+                name: "x".into(),
+                missing: false,
+                cands: vec![mk(1)],
+                sort_rank: vec![0],
+                favored: None,
+                locked: None,
+                hint: Hint::None,
+                unlisted: vec![],
+            });
+            let xp = u.packages.len() - 1;
+            u.vsets.push(VSet {
+                id: 0,
+                pkg: xp,
+                matches: vec![],
+            });
+            let xe = u.vsets.len() - 1;
+            for &ui in &empty_first_unions {
+                u.unions[ui].members.insert(0, xe);
+            }
+            x_empty = Some(xe);
+        }
         let mut single = vec![];
         for i in 0..n {
             u.vsets.push(VSet {
@@ -179,8 +219,23 @@ impl C15 {
             });
             single.push(u.vsets.len() - 1);
         }
+        let single_u = match x_empty {
+            Some(xe) if t.chance(1, 2) => Some(
+                (0..n)
+                    .map(|i| {
+                        u.unions.push(Union {
+                            id: 0,
+                            members: vec![xe, single[i]],
+                        });
+                        u.unions.len() - 1
+                    })
+                    .collect::<Vec<usize>>(),
+            ),
+            _ => None,
+        };
         let insert_at = t.below(reveal_reqs.len() + 1);
         let mut reuse = t.chance(1, 2);
+        let mut decided_sibling = false;
         let mk2 = |v: u32| Cand {
             sid: 0,
             version: v,
@@ -252,10 +307,38 @@ impl C15 {
                 reqs: vec![Req::Single(c1_vs)],
                 constrains: vec![],
             };
+            if self.extended && blocker.is_none() && t.chance(2, 3) {
+                // the chain's head gets a PREFERRED second candidate that first needs some
+                // candidate out of a generated subset of p: a sibling is selected by a
+                // decision when c1 reveals the question, the conflict is analysed, and the
+                // solver falls back to the plain head, where the question is still open
+                decided_sibling = true;
+                let mut subset: Vec<usize> = (0..n).filter(|_| t.chance(1, 2)).collect();
+                if subset.is_empty() {
+                    subset.push(t.below(n));
+                }
+                u.vsets.push(VSet {
+                    id: 0,
+                    pkg: 0,
+                    matches: subset,
+                });
+                let sub_vs = u.vsets.len() - 1;
+                let mut c = mk2(2);
+                c.deps = Deps::Known {
+                    reqs: if t.chance(1, 2) {
+                        vec![Req::Single(sub_vs), Req::Single(c1_vs)]
+                    } else {
+                        vec![Req::Single(c1_vs), Req::Single(sub_vs)]
+                    },
+                    constrains: vec![],
+                };
+                u.packages[c0].cands.push(c);
+                u.packages[c0].sort_rank = vec![1, 0];
+            }
             u.vsets.push(VSet {
                 id: 0,
                 pkg: c0,
-                matches: vec![0],
+                matches: (0..u.packages[c0].cands.len()).collect(),
             });
             reveal_reqs.push(Req::Single(u.vsets.len() - 1));
             chain = Some((c0, c1));
@@ -297,6 +380,9 @@ impl C15 {
             reuse,
             chain,
             blocker,
+            single_u,
+            empty_first: !empty_first_unions.is_empty(),
+            decided_sibling,
         }
     }
 }
@@ -312,7 +398,7 @@ impl Property for C15 {
         600
     }
     fn rule(&self) -> String {
-        format!("tape -> candidate count n (1..{}, biased to 2^k-1, 2^k, 2^k+1) + listing order + preference order + REVEAL PLAN: a generated partition of the candidates into groups that the encoder meets, in generated order, through root union requirements (group | always-installable helper), through requirements of hinted-but-unselected helper candidates (eager encoding), or only through the final requirements; then for every pair i<j (all pairs when n<={}, else {} generated pairs) the problem 'root requires {{i}} and {{j}}' and for every i the problem 'root requires {{i}}' are solved - with a fresh solver per question or (generated) all through ONE reused solver - and compared with the reference resolver (pair => Unsolvable, single => Ok containing i). Non-trivial: n>=3 and the pair straddles two reveal groups. Distinct = distinct (plan hash, pair); evaluations = number of solver runs.", self.max_n, self.all_pairs_upto, self.sample_pairs)
+        format!("tape -> candidate count n (1..{}, biased to 2^k-1, 2^k, 2^k+1) + listing order + preference order + REVEAL PLAN: a generated partition of the candidates into groups that the encoder meets, in generated order, through root union requirements (group | always-installable helper), through requirements of hinted-but-unselected helper candidates (eager encoding), or only through the final requirements (stage extended adds: reveal unions whose first member is an EMPTY version set of another package, questions whose last requirement is such a union, and a dependency chain whose preferred head first selects some sibling candidate by a decision, so that the question is revealed under that decision and survives the backtrack); then for every pair i<j (all pairs when n<={}, else {} generated pairs) the problem 'root requires {{i}} and {{j}}' and for every i the problem 'root requires {{i}}' are solved - with a fresh solver per question or (generated) all through ONE reused solver - and compared with the reference resolver (pair => Unsolvable, single => Ok containing i). Non-trivial: n>=3 and the pair straddles two reveal groups. Distinct = distinct (plan hash, pair); evaluations = number of solver runs.", self.max_n, self.all_pairs_upto, self.sample_pairs)
     }
     fn describe(&self, tape: &[u16]) -> String {
         let p = self.plan(tape);
@@ -351,13 +437,31 @@ impl Property for C15 {
         if plan.blocker.is_some() {
             rep.labels.push("revealed-while-false");
         }
+        if plan.empty_first {
+            rep.labels.push("union-with-empty-first-member");
+        }
+        if plan.single_u.is_some() {
+            rep.labels.push("question-through-union");
+        }
+        if plan.decided_sibling {
+            rep.labels.push("revealed-while-sibling-decided");
+        }
         // (universe, problem) of one question
-        let build = |extra: &[usize]| -> (Rc<Universe>, Problem) {
+        // the last requirement of a question may be phrased as [empty set of x | {j}]
+        let build = |cands: &[usize]| -> (Rc<Universe>, Problem) {
+            let extra: Vec<Req> = cands
+                .iter()
+                .enumerate()
+                .map(|(k, &i)| match &plan.single_u {
+                    Some(su) if k + 1 == cands.len() => Req::Union(su[i]),
+                    _ => Req::Single(plan.single[i]),
+                })
+                .collect();
             let mut reqs = plan.reveal_reqs.clone();
             match plan.chain {
                 None => {
-                    for (k, &vs) in extra.iter().enumerate() {
-                        reqs.insert((plan.insert_at + k).min(reqs.len()), Req::Single(vs));
+                    for (k, r) in extra.iter().enumerate() {
+                        reqs.insert((plan.insert_at + k).min(reqs.len()), r.clone());
                     }
                     (
                         u.clone(),
@@ -371,7 +475,7 @@ impl Property for C15 {
                 Some((_, c1)) => {
                     let mut u2 = (*u).clone();
                     u2.packages[c1].cands[0].deps = Deps::Known {
-                        reqs: extra.iter().map(|&vs| Req::Single(vs)).collect(),
+                        reqs: extra.clone(),
                         constrains: vec![],
                     };
                     (
@@ -403,7 +507,7 @@ impl Property for C15 {
         };
         // singles
         for i in 0..n {
-            let q = build(&[plan.single[i]]);
+            let q = build(&[i]);
             let res = ask(&q);
             let (uq, p) = (&q.0, &q.1);
             rep.evaluations += 1;
@@ -446,7 +550,7 @@ impl Property for C15 {
         // pairs
         let mut straddling = 0u64;
         for &(i, j) in &plan.pairs {
-            let q = build(&[plan.single[i], plan.single[j]]);
+            let q = build(&[i, j]);
             let res = ask(&q);
             rep.evaluations += 1;
             if let Some(f) = abnormal(&res.outcome, Cancel::Never) {
